@@ -498,7 +498,28 @@ func dsRun(line string) (result, monitor string, nMsgs int, classes []string) {
 			// sleep until <elapsed> seconds after the creation of the listener (absolute schedule: no drift)
 			n, _ := strconv.Atoi(f[1])
 			elapsed += n
+			type liveAt struct {
+				slot int
+				last time.Time
+			}
+			before := map[net.Conn]liveAt{}
+			live, _ := w.srv.VerifOccupied()
+			for _, i := range live {
+				if d := w.srv.VerifSlot(i, false); d != nil {
+					before[d.Obj] = liveAt{i, d.Last}
+				}
+			}
 			time.Sleep(time.Until(start.Add(time.Duration(elapsed) * time.Second)))
+			// expiry monitor: a live session heard within ConnectionTimeout of *now* cannot have been stale at any
+			// earlier run of the pruning task, so it must still be live in its slot
+			now := time.Now()
+			for obj, b := range before {
+				if !b.last.Add(sadns.ConnectionTimeout).Before(now) {
+					if d := w.srv.VerifSlot(b.slot, false); d == nil || d.Obj != obj {
+						note(fmt.Sprintf("live session S%d (slot %d), heard %.0f s ago, was removed by the pruning task", w.sidOf(obj), b.slot, now.Sub(b.last).Seconds()))
+					}
+				}
+			}
 		default:
 			return "bad-op", "", 0, nil
 		}
